@@ -1,7 +1,7 @@
 API = {"dir": "api", "pkgname": "api"}
 
 SPEC = {
-    "go": [dict(API, files=["api/c08_rig_test.go", "api/c08_test.go"], test="TestVerifC08",
+    "go": [dict(API, files=["api/c08_rig_test.go", "api/c08_generic_test.go", "api/c08_probe_test.go", "api/c08_test.go"], test="TestVerifC08",
                 n_quick=1200, n_thorough=48000, shards_quick=6, shards_thorough=16)],
     "rule": "wip",
     "codes": {1: "model_eq_impl (C08 codecs)",
@@ -9,11 +9,13 @@ SPEC = {
               11: "pb_decode_total (a decoded stored form is re-encodable and stable)",
               12: "query_roundtrip (ToQuery / FromQuery of well-formed options)",
               13: "query_decode_stable (options decoded from a query re-encode to themselves)",
-              14: "names_roundtrip (status filter / pin type / pin mode through its string form)"},
-    "gen": ["C08Status"],
-    "force": ["Gen/C08Status.v", "Model/C08_Status.v", "Proofs/C08_Status.v", "Model/C08_Check.v"],
+              14: "names_roundtrip (status filter / pin type / pin mode through its string form)",
+              15: "msgpack_roundtrip (a well-formed record through the msgpack codec)",
+              16: "json_roundtrip (a well-formed record through encoding/json)"},
+    "gen": ["C08Status", "C08Tags"],
+    "force": ["Gen/C08Status.v", "Gen/C08Tags.v", "Model/C08_Status.v", "Proofs/C08_Status.v", "Model/C08_Check.v"],
     "diag": True,
-    "tags": {},
+    "tags": {1: "origins-undecodable"},
     "trusted": [],
     "level_text": "wip",
     "level_note": "wip",
